@@ -33,6 +33,12 @@ def absRoot (content : Text) (tree : Node) : Option AJson :=
   | some doc => if doc.kind == "object" then some (.obj (absMembers content (absDepObject content) doc)) else none
   | none => none
 
+/-- the root object of a deno.json / deno.jsonc: comments before it are not part of the reading -/
+def absRootC (content : Text) (tree : Node) : Option AJson :=
+  match tree.firstValue with
+  | some doc => if doc.kind == "object" then some (.obj (absMembers content (absDepObject content) doc)) else none
+  | none => none
+
 /-! ### the declared set, defined on the abstract reading only -/
 
 def entryTriple (m : Option Text × Option AJson) : Option (Text × Text) :=
@@ -284,9 +290,9 @@ theorem denoSection_abs (content : Text) (c : Node) (hk : c.kind = "pair") :
           split <;> simp [importsTriples]
 
 theorem c04_deno_abstract (content : Text) (tree : Node) :
-    (denoJson content tree).map triple = declaredJsr (absRoot content tree) := by
-  unfold denoJson absRoot
-  cases tree.child0 with
+    (denoJson content tree).map triple = declaredJsr (absRootC content tree) := by
+  unfold denoJson absRootC
+  cases tree.firstValue with
   | none => rfl
   | some doc =>
     simp only
@@ -322,7 +328,7 @@ theorem c04_deno_abstract (content : Text) (tree : Node) :
       simp [ho', declaredJsr]
 
 /-- **layout invariance for deno.json** -/
-theorem c04_deno_layout_invariant (c1 c2 : Text) (t1 t2 : Node) (h : absRoot c1 t1 = absRoot c2 t2) :
+theorem c04_deno_layout_invariant (c1 c2 : Text) (t1 t2 : Node) (h : absRootC c1 t1 = absRootC c2 t2) :
     (denoJson c1 t1).map triple = (denoJson c2 t2).map triple := by
   rw [c04_deno_abstract, c04_deno_abstract, h]
 
